@@ -10,7 +10,7 @@
    Known design gap (kept visible, see InvBandExceptZeroDev): when floor(ref * k / 100) = 0 the
    code skips the deviation check. *)
 EXTENDS OracleValidateProps, TLC
-CONSTANTS Now, PMaxV, Devs, Kind
+CONSTANTS Now, PMaxV, Devs, Kind, Small
 VARIABLES c
 vars == <<c>>
 
@@ -29,16 +29,16 @@ InitTime ==
 InitPrice ==
   \E p \in PriceSet, ref \in RefSet, k \in Devs :
     c = [kind |-> "price", p |-> p, ref |-> ref, k |-> k]
-TcSet == [expected : {0, 1}, feedIdOf : {-1, 7, 8}, heartbeat : {1, 3}, adj : {0, 1}, dev : {0, 10, 50},
+TcSet == [expected : {0, 1}, feedIdOf : {-1, 7, 8}, heartbeat : IF Small THEN {3} ELSE {1, 3}, adj : {0, 1}, dev : {0, 10, 50},
           adjust : BOOLEAN, mult : {0, 1}, enabled : {TRUE}]
 FdSet == [provider : {0}, feedId : {7}, ts : {Now - 3, Now - 1, Now + 1}, slot : {4}, open : BOOLEAN,
-          price : {2, 4}, min : {1, 2, 4, 5}, max : {2, 4, 5}]
+          price : IF Small THEN {4} ELSE {2, 4}, min : IF Small THEN {1, 4, 5} ELSE {1, 2, 4, 5}, max : {2, 4, 5}]
 GoodItem == [known |-> TRUE,
              tc |-> [expected |-> 0, feedIdOf |-> 7, heartbeat |-> 3, adj |-> 0, dev |-> 0, adjust |-> FALSE,
                      mult |-> 0, enabled |-> TRUE],
              fd |-> [provider |-> 0, feedId |-> 7, ts |-> Now, slot |-> 6, open |-> TRUE, price |-> 3, min |-> 3, max |-> 3]]
 InitWith ==
-  \E tc \in TcSet, fd \in FdSet, ac \in BOOLEAN, two \in BOOLEAN, age \in {1, 3}, range \in {0, 2} :
+  \E tc \in TcSet, fd \in FdSet, ac \in BOOLEAN, two \in (IF Small THEN {TRUE} ELSE BOOLEAN), age \in (IF Small THEN {3} ELSE {1, 3}), range \in {0, 2} :
     c = [kind |-> "with", vs |-> [now |-> Now, age |-> age, range |-> range, excess |-> 1], ac |-> ac,
          items |-> IF two THEN <<GoodItem, [known |-> TRUE, tc |-> tc, fd |-> fd]>> ELSE <<[known |-> TRUE, tc |-> tc, fd |-> fd]>>]
 
